@@ -795,6 +795,71 @@ def r09j(ctx):
                        f"getparent() takes the text that follows a note or an annotation (its tail) for part of it, so marks addressed after it are not found or land on an earlier match")
 
 
+def r09k(ctx):
+    """The tags to strip are given as a collection of names.
+
+    `_strip_tags` decides with `element.tag in strip`.  Given a tuple that is equality with one of the names; given a bare string it is a
+    substring test, and `"text:s" in "text:span"` holds: removing the spans would also unwrap every `text:s`, and each run of blanks
+    collapses to the one blank of its tail — characters outside any span are lost.  `strip` is typed Iterable[str], which a str satisfies, so
+    no type checker objects.  Rule: every argument bound to the `strip` or `protect` parameter of strip_tags / _strip_tags is None, a
+    tuple/list/set (display or constructor), a parameter handed through, or a local whose every definition is one of those — never a
+    string constant or a class's `_tag`.
+    """
+    repo = ctx.repo
+    ctx.rule("R09k", "strip_tags is handed collections of tag names, never a bare string (membership would become a substring test)", floor=6)
+    n = 0
+
+    def kind(e, f, depth=0) -> str:
+        if isinstance(e, ast.Constant):
+            return "none" if e.value is None else ("str" if isinstance(e.value, str) else "other")
+        if isinstance(e, (ast.Tuple, ast.List, ast.Set, ast.ListComp, ast.SetComp, ast.GeneratorExp)):
+            return "coll"
+        if isinstance(e, ast.JoinedStr):
+            return "str"
+        if isinstance(e, ast.Call) and call_name(e) in ("tuple", "list", "set", "frozenset", "sorted"):
+            return "coll"
+        if isinstance(e, ast.Attribute):
+            v = repo.fold(e, f.module)
+            return "str" if isinstance(v, str) or e.attr == "_tag" else "other"
+        if isinstance(e, ast.IfExp):
+            a, b = kind(e.body, f, depth), kind(e.orelse, f, depth)
+            return "str" if "str" in (a, b) else ("coll" if "other" not in (a, b) else "other")
+        if isinstance(e, ast.BinOp) and isinstance(e.op, ast.Add):
+            a, b = kind(e.left, f, depth), kind(e.right, f, depth)
+            return "str" if a == b == "str" else ("coll" if "coll" in (a, b) else "other")
+        if isinstance(e, ast.Name) and depth < 3:
+            params = {a.arg: a for a in f.node.args.posonlyargs + f.node.args.args + f.node.args.kwonlyargs}
+            defs = [a.value for a in walk_no_nested(f.node) if isinstance(a, ast.Assign) and any(isinstance(t, ast.Name) and t.id == e.id for t in a.targets)]
+            defs += [a.value for a in walk_no_nested(f.node) if isinstance(a, ast.AnnAssign) and a.value is not None and isinstance(a.target, ast.Name) and a.target.id == e.id]
+            ks = [kind(d, f, depth + 1) for d in defs]
+            if e.id in params:
+                ann = params[e.id].annotation
+                ks.append("str" if ann is not None and ast.unparse(ann).replace(" ", "") in ("str", "str|None") else "coll")
+            if "str" in ks:
+                return "str"
+            return "coll" if ks and all(k in ("coll", "none") for k in ks) else "other"
+        return "other"
+
+    for f in repo.all_funcs():
+        for c in walk_no_nested(f.node):
+            if not (isinstance(c, ast.Call) and call_name(c) in ("strip_tags", "_strip_tags")):
+                continue
+            off = 1 if call_name(c) == "_strip_tags" else 0
+            for pos, pname in ((off, "strip"), (off + 1, "protect")):
+                a = get_arg(c, pos, pname)
+                if a is None:
+                    continue
+                n += 1
+                k = kind(a, f)
+                ctx.instance("R09k", f"{f.file}:{f.ident}", f"{pname}={norm(a, 30)}: {k}", ok=k != "str", nontrivial=True, line=c.lineno)
+                if k == "str":
+                    ctx.report("R09k", f, c, f"{pname}={norm(a, 30)}",
+                               f"{f.ident} hands `{norm(a, 40)}` — a string — to strip_tags as `{pname}`: `element.tag in {pname}` is then a substring test, so every tag whose name is "
+                               f"contained in it is stripped too (`text:s` in `text:span`, `text:a` in …): the blanks held by text:s collapse to their tails and text outside the removed markup is lost")
+    if n < 6:
+        raise AnalysisError(f"R09k: only {n} strip/protect argument(s) found")
+
+
 def run(ctx):
     r09a(ctx)
     r09b(ctx)
@@ -806,6 +871,7 @@ def run(ctx):
     r09h(ctx)
     r09i(ctx)
     r09j(ctx)
+    r09k(ctx)
     # strip_tags and the span builders re-attach every text piece through Element.append: a substitution there that touches more than U+0020 rewrites text
     # that lies outside the markup being inserted or removed (part of a rule shared with C16)
     from .c16 import r16i
@@ -818,6 +884,10 @@ from ..selftest import Seed, unparse_seed  # noqa: E402
 _P = "src/odfdo/paragraph.py"
 _EL = "src/odfdo/element.py"
 SEEDS = [
+    Seed("remove_spans hands the bare tag name to strip_tags", "fault", _P,
+         "        strip = (Span._tag,)\n        if keep_heading:", "        strip = Span._tag\n        if keep_heading:", "R09k"),
+    Seed("remove_links builds its one-name tuple in the call", "neutral", _P,
+         "        strip = (Link._tag,)\n        return self.strip_tags(strip=strip)", "        return self.strip_tags(strip=(Link._tag,))"),
     Seed("strip_elements detaches a lone empty element with lxml remove()", "fault", _EL,
          "    def strip_elements(\n        self,\n        sub_elements: Element | Iterable[Element],\n    ) -> Element | list:",
          "    def _drop_lone(self, lone_element: Element) -> None:\n        lone = lone_element.__element\n        holder = lone.getparent()\n        holder.remove(lone)\n\n    def strip_elements(\n        self,\n        sub_elements: Element | Iterable[Element],\n    ) -> Element | list:", "R09i"),
